@@ -211,6 +211,10 @@ func checkC02(c *Ctx) {
 	// (2) seed programs and the fusion-boundary family
 	fus := fusionPrograms()
 	c.Extra["fusion_boundary_programs"] = len(fus)
+	faultSites := c02FaultSites()
+	c.Extra["fault_site_programs"] = len(faultSites)
+	fus = append(fus, faultSites...)
+	fus = append(fus, c02FuncVarPrograms()...)
 	for _, s := range append(append([]string{}, seedPrograms...), fus...) {
 		off, on := observeRun(runMain(s, false)), observeRun(runMain(s, true))
 		if !off.Ok && strings.HasPrefix(s, "package main\n\ntype In struct") {
@@ -386,4 +390,64 @@ func checkC02(c *Ctx) {
 		fatalf("negative control (different returned value) not flagged: %v", nb)
 	}
 	c.Extra["negative_control"] = "a fabricated pair with different returned values was flagged by PairTrace as expected"
+}
+
+// c02FaultSites: every faulting expression over plain locals (the shapes the peephole pass fuses) x statement shape x
+// enclosing block, each on a line of its own below the start of the block: the run fails in both modes and names the
+// same line. (C20 decides which line is right; here the modes must agree.)
+func c02FaultSites() []string {
+	faults := []struct{ expr, args string }{
+		{"a / b", "5, 0"}, {"a % b", "5, 0"}, {"b / a", "0, 5"}, {"a - a/b", "5, 0"}, {"a * (a / b)", "5, 0"},
+		{"s[a]", "5, 0"}, {"s[a+b]", "3, 4"}, {"q.v", "5, 0"}, {"a << b", "5, -1"}, {"s[a:b][0]", "2, 1"},
+	}
+	shapes := []string{"x := E\n_ = x", "x = E", "x += E", "x -= E", "return E", "if E > 0 {\nx++\n}", "x = keep(E)", "t := []int{E}\n_ = t", "x, y := E, 1\n_ = y", "for i := 0; i < E; i++ {\n}"}
+	blocks := []string{"BODY", "if a >= 0 {\nx++\nBODY\n}", "for k := 0; k < 2; k++ {\nx += k\nBODY\n}", "switch {\ncase a > 100:\nx--\ndefault:\nx++\nBODY\n}", "if a < -5 {\nx--\n} else {\nx++\nBODY\n}"}
+	var out []string
+	for _, f := range faults {
+		for si, sh := range shapes {
+			for bi, bl := range blocks {
+				if (si+bi)%2 == 1 && len(out)%3 != 0 {
+					continue
+				}
+				body := strings.ReplaceAll(bl, "BODY", strings.ReplaceAll(sh, "E", f.expr))
+				src := "package main\n\ntype T struct{ v int }\n\nfunc keep(n int) int { return n }\n\nfunc F(a, b int, s []int, q *T) int {\n\tx := 0\n\tx++\n" + indentLines(body, "\t") + "\n\treturn x\n}\n\nfunc Main() {\n\tprintln(\"start\")\n\tprintln(F(" + f.args + ", []int{1, 2, 3}, nil))\n}\n"
+				out = append(out, src)
+			}
+		}
+	}
+	return out
+}
+
+func indentLines(s, ind string) string {
+	ls := strings.Split(s, "\n")
+	depth := 0
+	for i, l := range ls {
+		if strings.HasPrefix(l, "}") || strings.HasPrefix(l, "case") || strings.HasPrefix(l, "default") {
+			if strings.HasPrefix(l, "}") {
+				depth--
+			}
+		}
+		ls[i] = ind + strings.Repeat("\t", maxInt(depth, 0)) + l
+		if strings.HasSuffix(l, "{") {
+			depth++
+		}
+	}
+	return strings.Join(ls, "\n")
+}
+
+// c02FuncVarPrograms: a package-level variable holding a function (a literal, a declared function, a native registered
+// by the host is covered in C19) is replaced while a call site that already ran is going to run again.
+func c02FuncVarPrograms() []string {
+	return []string{
+		"package main\n\nvar f = func(n int) int { return n + 10 }\n\nfunc call(n int) int { return f(n) }\n\nfunc Main() {\n\tprintln(call(1))\n\tf = func(n int) int { return n * 20 }\n\tprintln(call(1))\n\tfor i := 0; i < 4; i++ {\n\t\tif i == 2 {\n\t\t\tf = func(n int) int { return -n }\n\t\t}\n\t\tprintln(f(i), call(i))\n\t}\n}\n",
+		"package main\n\nfunc a(n int) int { return n + 1 }\n\nfunc b(n int) int { return n + 2 }\n\nvar g = a\n\nfunc use(n int) int { return g(n) + g(n) }\n\nfunc Main() {\n\tt := 0\n\tfor i := 0; i < 6; i++ {\n\t\tt += use(i)\n\t\tif i%2 == 0 {\n\t\t\tg = b\n\t\t} else {\n\t\t\tg = a\n\t\t}\n\t}\n\tprintln(t, g(0))\n}\n",
+		"package main\n\ntype H struct{ fn func(int) int }\n\nvar h = &H{fn: func(n int) int { return n + 5 }}\n\nvar table = []func(int) int{func(n int) int { return n }, func(n int) int { return n * n }}\n\nfunc run(n int) int { return h.fn(n) + table[n%2](n) }\n\nfunc Main() {\n\tprintln(run(3))\n\th.fn = func(n int) int { return n - 5 }\n\ttable[1] = func(n int) int { return 0 }\n\tprintln(run(3))\n\th = &H{fn: table[0]}\n\tprintln(run(3), run(4))\n}\n",
+	}
+}
+
+func maxInt(a, b int) int {
+	if a > b {
+		return a
+	}
+	return b
 }
